@@ -53,13 +53,22 @@ func RunC09P(s *simrt.Sim, a *harness.Args, r *harness.Result) {
 	if s.T.Choose(st, 2) == 1 {
 		rewrite["alias@a.example"] = []string{"real@a.example"}
 	}
+	// a chain: one client recipient is rewritten to an address that another
+	// client recipient of the same message supplied, which is itself rewritten
+	// (a rewrite is applied once; results travel back one step, not to the
+	// end of the chain)
+	chain := s.T.Choose(st, 3) == 0
+	if chain {
+		rewrite["alias@a.example"] = []string{"u2@a.example"}
+		rewrite["u2@a.example"] = []string{"real2@a.example"}
+	}
 	mod := &actors.ScriptedModifier{Label: "rw"}
 	mod.PlanFor = func(*module.MsgMetadata) *actors.ModPlan { return &actors.ModPlan{Rewrite: rewrite} }
 	module.RegisterInstance(mod, nil)
 	delete(module.Initialized, "rw")
 	tgt := &actors.ScriptedTarget{Label: "t1", Partial: s.T.Choose(st, 4) != 0, Prop: ""}
 	plan := &actors.StagePlan{Rcpt: map[string]actors.Outcome{}, Status: map[string]actors.Outcome{}, Var: s.T.Choose("plan", 48)}
-	all := []string{"m1@a.example", "m2@a.example", "m3@a.example", "real@a.example", "u2@a.example", "alias@a.example", "list@a.example"}
+	all := []string{"m1@a.example", "m2@a.example", "m3@a.example", "real@a.example", "u2@a.example", "alias@a.example", "list@a.example", "real2@a.example"}
 	for _, x := range all {
 		if s.T.Bool("plan", 1, 4) {
 			plan.Status[x] = actors.Outcome(1 + s.T.Choose("plan", 2))
@@ -117,6 +126,9 @@ func RunC09P(s *simrt.Sim, a *harness.Args, r *harness.Result) {
 	pipe.Hostname = "mx.sim.example"
 	pipe.Log = log.Logger{Out: log.NopOutput{}}
 	n := 1 + s.T.Choose(st, 3)
+	if chain {
+		n = 3
+	}
 	rcpts := append([]string{}, clientRcpts[:n]...)
 	if two {
 		rcpts = append(rcpts, clientRcpts[3:3+1+s.T.Choose(st, 2)]...)
@@ -253,7 +265,7 @@ func RunC09P(s *simrt.Sim, a *harness.Args, r *harness.Result) {
 		}
 	}
 	s.Stat("pipeline_status_runs")
-	r.Shape = fmt.Sprintf("nested=%v where=%s rw=%v rcpts=%v partial=%v/%v st=%v/%v body=%v/%v", nested, where, rewrite, rcpts, tgt.Partial, tgt2.Partial, plan.Status, plan2.Status, plan.Body, plan2.Body)
+	r.Shape = fmt.Sprintf("nested=%v chain=%v where=%s rw=%v rcpts=%v partial=%v/%v st=%v/%v body=%v/%v", nested, chain, where, rewrite, rcpts, tgt.Partial, tgt2.Partial, plan.Status, plan2.Status, plan.Body, plan2.Body)
 	r.Nontrivial = len(kl.keys) > 0
 	r.Sample = map[string]interface{}{"scenario": r.Shape, "reported_keys": strings.Join(keys, ",")}
 }
